@@ -13,6 +13,7 @@ import (
 	"time"
 
 	"github.com/hashicorp/raft"
+	pb "github.com/robustirc/robustirc/internal/proto"
 	"github.com/robustirc/robustirc/internal/verifrep"
 )
 
@@ -26,7 +27,7 @@ func TestVerifC20StoreClose(t *testing.T) {
 	defer rep.Close()
 	base := verifrep.Seed()
 	rounds := verifrep.Cases(20)
-	var reads, afterClose int64
+	var reads, afterClose, writes int64
 	for r := 0; r < rounds; r++ {
 		seed := base*7919 + int64(r)
 		rng := rand.New(rand.NewSource(seed))
@@ -92,6 +93,29 @@ func TestVerifC20StoreClose(t *testing.T) {
 				}
 			}(g)
 		}
+		// two writers meanwhile, as on the raft log of a node that marks a message of death (the
+		// state machine rewrites one entry with StoreLogProto while raft appends and truncates)
+		var ww sync.WaitGroup
+		ww.Add(2)
+		go func() {
+			defer ww.Done()
+			for k := uint64(0); k < 40; k++ {
+				l := c09Entry(rand.New(rand.NewSource(seed+int64(k))), 1000+k, !pbMode).raft()
+				s.StoreLogs([]*raft.Log{l})
+				if k%10 == 9 {
+					s.DeleteRange(1000+k-9, 1000+k-5)
+				}
+			}
+		}()
+		go func() {
+			defer ww.Done()
+			for k := uint64(0); k < 40; k++ {
+				l := c09Entry(rand.New(rand.NewSource(seed-int64(k))), 1+k, false).raft()
+				s.StoreLogProto(&pb.RaftLog{Index: l.Index, Term: l.Term, Type: pb.RaftLog_LogType(l.Type), Data: l.Data, AppendedAt: tsNew(l.AppendedAt)})
+				atomic.AddInt64(&writes, 2)
+			}
+		}()
+		ww.Wait()
 		time.Sleep(time.Duration(500+rng.Intn(4000)) * time.Microsecond)
 		s.Close()
 		time.Sleep(time.Millisecond)
@@ -104,4 +128,5 @@ func TestVerifC20StoreClose(t *testing.T) {
 	rep.Obs("store-close.reads", int(atomic.LoadInt64(&reads)))
 	rep.Obs("store-close.readers-that-met-the-closed-store", int(atomic.LoadInt64(&afterClose)))
 	rep.Obs("store-close.rounds", rounds)
+	rep.Obs("store-two-writers.writes", int(atomic.LoadInt64(&writes)))
 }
